@@ -1,6 +1,6 @@
 """Standard-model interpretations of the theory symbols added by ttvc/mx_act.py (loaded by lemmas/spotcheck.load_extensions).
 
-Symbols: isum, psize, wsum, wchain, vnorm, tdent, bsel.  The axioms of mx_act quantify over one sort that lemmas/spotcheck.sample
+Symbols: isum, psize, wsum, wchain, vnorm.  The axioms of mx_act quantify over one sort that lemmas/spotcheck.sample
 does not know (a list of weight vectors, Array(Int, Array(Int, Real))); `sample` of the running spot-check module is wrapped
 (same pattern as the model-table hooks: unknown sorts fall through to the previous function)."""
 import sys
